@@ -7,6 +7,10 @@
 pub mod refmodel;
 
 #[cfg(kani)]
+#[macro_use]
+pub mod stubs;
+
+#[cfg(kani)]
 mod h_c03;
 #[cfg(kani)]
 mod h_c05;
@@ -17,7 +21,13 @@ mod h_c07;
 #[cfg(kani)]
 mod h_c09;
 #[cfg(kani)]
+pub mod h_c09_occ;
+#[cfg(kani)]
 mod h_c10;
+#[cfg(kani)]
+mod h_cb;
+#[cfg(kani)]
+mod h_range;
 #[cfg(kani)]
 mod h_c11;
 #[cfg(kani)]
